@@ -7,7 +7,7 @@
 		g_n             = nondet_size_t();                   \
 		g_b             = nondet_u8();                       \
 		g_exit          = nondet_size_t();                   \
-		for (int vp_i = 0; vp_i < 11; vp_i++) g_w[vp_i] = nondet_u8(); \
+		g_w[0] = nondet_u8(); g_w[1] = nondet_u8(); g_w[2] = nondet_u8(); g_w[3] = nondet_u8(); g_w[4] = nondet_u8(); g_w[5] = nondet_u8(); g_w[6] = nondet_u8(); g_w[7] = nondet_u8(); g_w[8] = nondet_u8(); g_w[9] = nondet_u8(); g_w[10] = nondet_u8(); \
 		g_free_calls    = nondet_size_t();                   \
 		g_alloc_ok      = nondet_size_t();                   \
 		g_alloc_refused = nondet_size_t();                   \
@@ -16,10 +16,27 @@
 		__CPROVER_assume(g_alloc_refused < ((size_t) 1 << 40)); \
 	} while (0)
 
+#ifndef VP_TABLES_ONLY
 void h_utf8_validate(void) { void *p; VP_HAVOC_GHOSTS(); url_utf8_validate(p); VP_CANARY(); }
 void h_hex_val(void) { char c; url_hex_val(c); VP_CANARY(); }
 void h_clone_inline(void) { nng_url *d; nng_url *s; VP_HAVOC_GHOSTS(); nni_url_clone_inline(d, s); VP_CANARY(); }
 void h_url_clone(void) { nng_url **dp; nng_url *s; VP_HAVOC_GHOSTS(); nng_url_clone(dp, s); VP_CANARY(); }
-void h_parse_inner(void) { nng_url *u; char *raw; VP_HAVOC_GHOSTS(); nni_url_parse_inline_inner(u, raw); VP_CANARY(); }
+void h_parse_inner(void) { nng_url *u; char *raw; VP_HAVOC_GHOSTS(); vp_tables_init(); nni_url_parse_inline_inner(u, raw); VP_CANARY(); }
 void h_canonify(void) { char *o; VP_HAVOC_GHOSTS(); nni_url_canonify_uri(o); VP_CANARY(); }
-void h_default_port(void) { char *sch; VP_HAVOC_GHOSTS(); nni_url_default_port(sch); VP_CANARY(); }
+void h_default_port(void) { char *sch; VP_HAVOC_GHOSTS(); vp_tables_init(); nni_url_default_port(sch); VP_CANARY(); }
+#endif
+/* no DFCC: the statics still have their real initialisers here */
+void h_tables_match(void)
+{
+	__CPROVER_assert(VP_NELEM(nni_schemes) == VP_NSCHEMES + 1 && VP_NSCHEMES == URL_NSCHEMES, "scheme table: same number of entries");
+	__CPROVER_assert(VP_NELEM(nni_url_default_ports) == VP_NPORTS + 1, "port table: same number of entries");
+#define X(i, n) __CPROVER_assert(nni_schemes[i] != NULL && strcmp(nni_schemes[i], n) == 0 && strlen(n) <= URL_SCHEME_MAXLEN, "scheme table: entry equal, length <= 8");
+	VP_SCHEMES(X)
+#undef X
+	__CPROVER_assert(nni_schemes[VP_NSCHEMES] == NULL, "scheme table: terminator at the same place");
+#define X(i, n, p) __CPROVER_assert(nni_url_default_ports[i].scheme != NULL && strcmp(nni_url_default_ports[i].scheme, n) == 0 && nni_url_default_ports[i].port == p, "port table: entry equal");
+	VP_PORTS(X)
+#undef X
+	__CPROVER_assert(nni_url_default_ports[VP_NPORTS].scheme == NULL, "port table: terminator at the same place");
+	VP_CANARY();
+}
